@@ -1,11 +1,22 @@
 //! lv_query: query-result properties (C02..C06).
+mod api;
 mod c06_api;
 mod c06_kernel;
 mod db;
 mod gen;
+mod judge;
+mod pgen;
+mod query;
+mod refeval;
+mod suites;
+mod tgen;
 mod val;
 
 fn main() {
-    let v: Vec<Box<dyn lvharness::suite::Suite>> = vec![Box::new(c06_kernel::C06Kernel), Box::new(c06_api::C06Api)];
+    let v: Vec<Box<dyn lvharness::suite::Suite>> = vec![
+        Box::new(c06_kernel::C06Kernel),
+        Box::new(c06_api::C06Api),
+        Box::new(api::ApiSuite { name: "c03_filter", gen: suites::gen_c03, salt: 0xC03 }),
+    ];
     lvharness::cli_main(v);
 }
